@@ -225,7 +225,8 @@ def run_shard(shard, ctx):
                 acc.viols.append(Viol(case, 'bridge', 'bridge-flag-count', '%d S-S bonds, %d flags' % (nss, nflag)))
     elif kind == 'bridge-run':
         for d in (2.0, 2.04, 2.3, 2.499, 2.501, 2.7, 3.2):
-            bridge_run(dict(kind='bridge-run', d=d), acc)
+            for opts in ((), ('-i', 'A:2,B:12'), ('-i', 'A:2'), ('-d',), ('--protonate-all',)):
+                bridge_run(dict(kind='bridge-run', d=d, opts=list(opts)), acc)
     return acc
 
 
@@ -236,19 +237,30 @@ def bridge_run(case, acc):
     sg = [a for a in s.atoms if a.name == 'SG']
     dist = math.sqrt(sum((getattr(sg[0], c) - getattr(sg[1], c)) ** 2 for c in 'xyz')) / 1000.0
     text = gen.to_text(s)
-    mol = pk.run(text)
+    opts = tuple(case.get('opts', ()))
+    mol = pk.run(text, opts)
     acc.n += 1
-    acc.nontrivial.add('bridge-run/%s' % d)
+    acc.nontrivial.add('bridge-run/%s/%s' % (d, ' '.join(opts)))
     groups = [g for g in mol.conformations['1A'].groups if g.type == 'CYS']
     avr = [g for g in mol.conformations['AVR'].groups if g.type == 'CYS']
     expect = dist < 2.5
     acc.outcomes['bridged' if expect else 'free'] += 1
-    ok = len(groups) == 2 and len(avr) == 2
+    listed = None
+    if '-i' in opts:
+        listed = [int(x.split(':')[1]) for x in opts[opts.index('-i') + 1].split(',')]
+    ok = len(groups) == 2 and len(avr) == (2 if listed is None else len(listed))
     for g in groups + avr:
+        if listed is not None and g.atom.res_num not in listed:
+            ok = ok and not g.titratable     # unlisted: never titrated, bridged or not
+            continue
         if expect:
             ok = ok and g.atom.cysteine_bridge and not g.titratable and abs(g.pka_value - 99.99) < 1e-9
         else:
             ok = ok and not g.atom.cysteine_bridge and g.titratable and g.pka_value < 50
+    if expect:   # a bridged cysteine contributes no charge and no folding energy, whatever the options
+        conf = mol.conformations['AVR']
+        qu, qf = conf.calculate_charge(mol.version.parameters, ph=14.0)
+        ok = ok and abs(qu) < 1e-9 and abs(qf) < 1e-9
     if not ok:
         acc.viols.append(Viol(case, 'bridge-run', 'bridged-cys-consequence/%s' % ('bridged' if expect else 'free'),
                               'SG-SG %.3f A: groups %s' % (dist, [(g.label, g.titratable, g.pka_value, g.atom.cysteine_bridge)
